@@ -171,7 +171,7 @@ func (fr *frame) runDefer(d *deferred) {
 			// Deferred call created a new state of panic.
 			r := recover()
 			switch r.(type) {
-			case pathAbort, internalError, crashPanic:
+			case pathAbort, internalError, crashPanic, killedPanic:
 				panic(r)
 			}
 			fr.panicking = true
@@ -372,6 +372,7 @@ func visitInstr(fr *frame, instr ssa.Instruction) continuation {
 		fr.env[instr] = makeMap(instr.Type().Underlying().(*types.Map).Key(), reserve)
 
 	case *ssa.Range:
+		fr.i.mapAccess(fr, fr.get(instr.X), false)
 		fr.env[instr] = rangeIter(fr.get(instr.X), instr.X.Type())
 
 	case *ssa.Next:
@@ -409,10 +410,12 @@ func visitInstr(fr *frame, instr ssa.Instruction) continuation {
 		}
 
 	case *ssa.Lookup:
+		fr.i.mapAccess(fr, fr.get(instr.X), false)
 		fr.env[instr] = fr.i.lookupSym(instr, fr.get(instr.X), fr.get(instr.Index))
 
 	case *ssa.MapUpdate:
 		m := fr.get(instr.Map)
+		fr.i.mapAccess(fr, m, true)
 		key := fr.i.concretizeKey(fr.get(instr.Key))
 		v := fr.get(instr.Value)
 		switch m := m.(type) {
